@@ -294,7 +294,7 @@ def ob_translation(r):
 
 
 # ---- aggregated sets ----------------------------------------------------------------------------------------------
-def ob_aggregated(imp, agg, k, batch, npts):
+def ob_aggregated(imp, agg, k, batch, npts, reuse_buffer=False):
     """Aggregated(terms = k Activated(term_j, degree_j, implication)).membership(x) == fold(agg, 0, imp(degree_j, mu_j(x)))"""
 
     def run(ob):
@@ -314,7 +314,15 @@ def ob_aggregated(imp, agg, k, batch, npts):
 
         def body():
             terms = [make_term(fl, [mus[j]]) for j in range(k)]
-            acts = [fl.Activated(terms[j], sym_array(degs[j]) if batch else degs[j][0], I) for j in range(k)]
+            if reuse_buffer:
+                # the caller fills ONE array with the degrees of each activation in turn: an activated term keeps the degrees it was given
+                buf = sym_array(degs[0])
+                acts = []
+                for j in range(k):
+                    buf[:] = sym_array(degs[j])
+                    acts.append(fl.Activated(terms[j], buf, I))
+            else:
+                acts = [fl.Activated(terms[j], sym_array(degs[j]) if batch else degs[j][0], I) for j in range(k)]
             ag = fl.Aggregated("out", 0.0, 1.0, A, acts)
             x = core.sym_array([[core.const(float(i)) for i in range(npts)]])
             return ag.membership(x)
@@ -325,14 +333,15 @@ def ob_aggregated(imp, agg, k, batch, npts):
                 f"degs = {lit([[v[f'd{j}_{b}'] for b in range(B)] for j in range(k)])}",
                 f"mus = {lit([[v[f'm{j}_{i}'] for i in range(npts)] for j in range(k)])}",
                 f"I, A = {'fl.NormLambda(lambda a, b: 0.25 * a + 0.5 * b)' if imp == 'Asymmetric' else 'fl.' + imp + '()'}, fl.{agg}()",
-                f"acts = [fl.Activated(Fixed(mus[j]), {'np.array(degs[j])' if batch else 'degs[j][0]'}, I) for j in range({k})]",
+                (f"buf = np.array(degs[0], dtype=float); acts = []\nfor j in range({k}):\n    buf[:] = degs[j]; acts.append(fl.Activated(Fixed(mus[j]), buf, I))" if reuse_buffer else
+                 f"acts = [fl.Activated(Fixed(mus[j]), {'np.array(degs[j])' if batch else 'degs[j][0]'}, I) for j in range({k})]"),
                 "got = np.atleast_2d(fl.Aggregated('out', 0.0, 1.0, A, acts).membership(np.zeros((1, %d))))" % npts,
                 f"fi = lambda a, b: {py_imp}", f"fa = lambda a, b: {nspec.PY[agg]}",
                 "exp = []",
                 f"for b in range({B}):\n    row = []\n    for i in range({npts}):\n        y = 0.0\n        for j in range({k}):\n            y = fa(y, fi(degs[j][b], mus[j][i]))\n        row.append(y)\n    exp.append(row)",
                 f"verdict(not same(got, exp, 1e-9), '{agg}[{imp}] aggregated membership %r, documented %r' % (got.tolist(), exp))"])
 
-        rp = replay_fn(PROPERTY, f"agg.{imp}.{agg}.k{k}.{'b' if batch else 's'}", rbody, key=f"aggregated/{imp}/{agg}")
+        rp = replay_fn(PROPERTY, f"agg.{imp}.{agg}.k{k}.{'b' if batch else 's'}{'.buf' if reuse_buffer else ''}", rbody, key=f"aggregated/{imp}/{agg}")
         for p in ob.paths(pre, body):
             if p.exc is not None:
                 ob.unexpected(pre, p, f"aggregated/{imp}/{agg}/k{k}", ins, rp)
@@ -387,6 +396,8 @@ def _obligations(tier, seed):
                     if batch and k == 1 and tier == "quick":
                         continue
                     obs.append((f"aggregated/{imp}/{agg}/k{k}/{'batch' if batch else 'scalar'}", ob_aggregated(imp, agg, k, batch, npts)))
+    obs.append(("aggregated/Minimum/Maximum/k2/reused-degree-buffer", ob_aggregated("Minimum", "Maximum", 2, True, npts, reuse_buffer=True)))
+    obs.append(("aggregated/AlgebraicProduct/UnboundedSum/k3/reused-degree-buffer", ob_aggregated("AlgebraicProduct", "UnboundedSum", 3, True, npts, reuse_buffer=True)))
     for agg in ("Maximum", "UnboundedSum"):
         for k in (1, 2):
             for batch in (False, True):
